@@ -171,7 +171,8 @@ def _main(args):
             continue
         seen.add(key)
         path = core.write_replay(v)
-        ok, out = confirm_fresh(path, prop)
+        ok, out = (False, "not stable within the finding process") if v.get("unstable_in_process") \
+            else confirm_fresh(path, prop)
         if not ok:
             # the single history does not fail on its own: it needs what the earlier runs of
             # its chunk left behind in the process.  Replay the chunk prefix instead.
